@@ -228,13 +228,102 @@ def tlc_shapes(ctx):
     ctx.cov['states'] += r.distinct
     ctx.cov['transitions'] += r.generated
     shapes = []
+    lazy = []
     for line in r.output.splitlines():
         line = line.strip()
         if line.startswith('<<"SHAPE"'):
             shapes.append(json.loads(tlc.parse_value(line)[1]))
-    if len(shapes) < 100:
-        raise MachineryError('only %d shapes enumerated' % len(shapes))
-    return shapes
+        elif line.startswith('<<"LAZY"'):
+            lazy.append(json.loads(tlc.parse_value(line)[1]))
+    if len(shapes) < 100 or len(lazy) < 1000:
+        raise MachineryError('only %d shapes / %d lazy compositions enumerated' % (len(shapes), len(lazy)))
+    lazy.sort(key=lambda d: json.dumps(d, sort_keys=True))
+    return shapes, lazy
+
+
+# ------------------------------------------------------------------ lazily evaluated compositions (from TLC)
+LAZY_UN = [('neg', 'method'), ('__neg__', 'dunder'), ('midicps', 'builtin'), ('squared', 'method'), ('__abs__', 'dunder'),
+           ('sign', 'builtin'), ('reciprocal', 'method'), ('__invert__', 'dunder'), ('frac', 'builtin'), ('log', 'method')]
+LAZY_BIN = [('__sub__', 'dunder'), ('mod', 'builtin'), ('thresh', 'method'), ('__truediv__', 'dunder'),
+            ('round', 'method'), ('__pow__', 'dunder'), ('min', 'builtin'), ('__lt__', 'dunder'), ('atan2', 'method'),
+            ('__floordiv__', 'dunder'), ('scaleneg', 'builtin'), ('ring4', 'method'), ('__mod__', 'dunder'),
+            ('excess', 'builtin'), ('__mul__', 'dunder'), ('round', 'builtin'), ('trunc', 'builtin')]
+LAZY_NAR = [('clip', 'method'), ('wrap', 'builtin'), ('fold', 'method'), ('blend', 'method'), ('clip', 'builtin'),
+            ('blend', 'builtin'), ('wrap', 'method'), ('moddif', 'method'), ('fold', 'builtin')]
+LAZY_NAR_LONG = [('linlin', 'method', 4), ('linexp', 'builtin', 4), ('lincurve', 'method', 5), ('expexp', 'method', 4),
+                 ('linlin', 'builtin', 4), ('curvelin', 'method', 5), ('bilin', 'method', 6), ('lg3interp', 'builtin', 4)]
+HOWS = {('once', 0): ['stream'], ('once', 1): ['embed', 'nested'], ('tail', 1): ['tail'],
+        ('twice', 1): ['twice', 'twice2'], ('inter', 0): ['inter'], ('inter', 1): ['inter-nested']}
+HOWS_T = {('once', 1): ['embed', 'nested', 'nested2']}
+
+
+def lazy_operands(g, ops, variant):
+    """operand descriptions (values, sources) for a TLC operand vector; one description per stream identity"""
+    out = []
+    by_sid = {}
+    for k, o in enumerate(ops):
+        kind = o['k']
+        if kind == 'num':
+            out.append(dict(k='num', v=g.vals(1)[0], sid=o['sid']))
+        elif kind == 'fn':
+            out.append(dict(k='fn', vals=g.vals(3), src=['', 'composed'][(variant + k) % 2], sid=o['sid']))
+        elif kind == 'pat':
+            out.append(dict(k='pat', vals=g.vals(o['n']), src=['pseq', 'gen', 'composed'][(variant + k) % 3], sid=o['sid']))
+        else:
+            if o['sid'] not in by_sid:
+                by_sid[o['sid']] = dict(k=kind, vals=g.vals(o['n']), src=['pseq', 'composed'][(variant + k) % 2],
+                                        sid=o['sid'])
+            out.append(dict(by_sid[o['sid']]))
+    return out
+
+
+def gen_lazy(lazy, rnd, thorough):
+    g = Gen(rnd)
+    cases = []
+    per = 3 if thorough else 1
+    for i, sh in enumerate(lazy):
+        ops = sh['ops']
+        m = len(ops)
+        hows = list(HOWS[(sh['law'], sh['gen'])])
+        if thorough:
+            hows = HOWS_T.get((sh['law'], sh['gen']), hows)
+        for how in hows:
+            for j in range(per):
+                v = i * 5 + j
+                if m == 1:
+                    op, form = LAZY_UN[v % len(LAZY_UN)]
+                elif m == 2:
+                    op, form = LAZY_BIN[v % len(LAZY_BIN)]
+                    if ops[0]['k'] == 'num':        # reflected forms only
+                        if form == 'dunder':
+                            if op not in HAS_R:
+                                op = '__sub__'
+                            op, form = '__r' + op[2:], 'rdunder'
+                        elif form == 'method':
+                            op, form = 'mod', 'builtin'
+                else:
+                    op, form = LAZY_NAR[v % len(LAZY_NAR)]
+                cases.append(dict(ty='lazy', op=op, form=form, ops=lazy_operands(g, ops, v), law=sh['law'],
+                                  gen=sh['gen'], how=how))
+        # operators with more arguments: the two further operand kinds take two of the argument positions
+        if m == 3 and (thorough or i % 4 == 0):
+            op, form, nargs = LAZY_NAR_LONG[i % len(LAZY_NAR_LONG)]
+            p1 = i % nargs
+            p2 = (p1 + 1 + (i // nargs) % (nargs - 1)) % nargs
+            lo, hi = sorted((p1, p2))
+            base = lazy_operands(g, ops, i)
+            full = [base[0]]
+            nums = NARY_ARGS[op][0]
+            slot = {lo: base[1], hi: base[2]}
+            for a in range(nargs):
+                if a in slot:
+                    full.append(slot[a])
+                else:
+                    full.append(dict(k='num', v=nums[a] if a < len(nums) else I(1), sid=100 + a))
+            # identities refer to positions: keep shared streams shared, make the others unique
+            how = rnd.choice(HOWS[(sh['law'], sh['gen'])])
+            cases.append(dict(ty='lazy', op=op, form=form, ops=full, law=sh['law'], gen=sh['gen'], how=how))
+    return cases
 
 
 def spec_of(g, kind, T, variant):
@@ -417,6 +506,16 @@ def judge(ctx, cases, traces):
             what = ('composed %s (%s form) over %s: evaluation differs from the kernel applied to the evaluated '
                     'operands (%s); case %s; observed root %s; kernel table row %s'
                     % (c['op'], c['form'], kinds_sig(c), why, brief(c), t['O'][:3], t['tab'][0][:3]))
+        elif c['ty'] == 'lazy':
+            kinds = '/'.join(o['k'] for o in c['ops'])
+            arity = {1: 'unary', 2: 'binary'}.get(len(c['ops']), 'nary')
+            sig = 'lazy:%s:%s:%s:%s:%s' % (arity, c['form'], kinds, c['how'], why)
+            obs = dict(O=t['O'][:8], tab=t['tab'][:6])
+            what = ('composed %s (%s form) over operands %s, traversed as %s (%s%s): the outcomes of next() differ from '
+                    'the kernel applied to the elements the operands deliver (%s); operands %s; observed %s; kernel '
+                    'table %s' % (c['op'], c['form'], kinds, c['how'], c['law'], ', generator' if c['gen'] else '', why,
+                                  c['ops'], [(o['v']['s'], [x['s'] for x in o['c']]) for o in t['O'][:8]],
+                                  [x['s'] for x in t['tab'][:8]]))
         elif c['ty'] == 'range':
             ty = ''.join(a['t'] for a in c['a'])
             sig = 'range:%s:%s:%s' % (c['fn'], ty, why)
@@ -452,8 +551,12 @@ def run(ctx):
     cases, skipped = gen_lift(cat, rnd, thorough)
     for name in skipped:
         ctx.note_drift('operator %s has no argument set in the generator (not exercised)' % name)
-    shapes = tlc_shapes(ctx)
+    shapes, lazy = tlc_shapes(ctx)
     shaped = gen_from_shapes(shapes, rnd, len(SHAPE_OPS) if thorough else 4)
+    lazy_cases = gen_lazy(lazy, rnd, thorough)
+    ctx.cov['tlc_enumerated_lazy_compositions'] = len(lazy)
+    ctx.cov['cases_from_tlc_lazy'] = len(lazy_cases)
+    cases += lazy_cases
     ctx.cov['tlc_enumerated_shapes'] = len(shapes)
     ctx.cov['cases_from_tlc_shapes'] = len(shaped)
     cases += shaped
